@@ -131,11 +131,21 @@ class Result:
 ROM_TYPES = {"low": "low_rom", "low2": "low_rom_2", "high": "high_rom"}
 
 
+DUMP_SYMBOLS = {"on": False}      # the diagnostic switch Program(dump_symbols=True): it prints the symbol table and is no input of the assembly
+
+
 def new_program(rom: str | None = None, defines: dict[str, int] | None = None):
     from a816.cpu.cpu_65c816 import RomType
     from a816.program import Program
 
-    program = Program()
+    program = None
+    if DUMP_SYMBOLS["on"]:
+        try:
+            program = Program(dump_symbols=True)
+        except TypeError:
+            program = None
+    if program is None:
+        program = Program()
     if rom is not None and rom != "map":
         program.resolver.rom_type = getattr(RomType, ROM_TYPES[rom])
     if defines:
@@ -180,7 +190,14 @@ def run_program(program, src: str, filename: str = "t.s", writer: Any = None) ->
 def _run_program(program, src: str, filename: str = "t.s", writer: Any = None) -> Result:
     w = writer if writer is not None else RecWriter()
     try:
-        err = program.assemble_string_with_emitter(src, filename, w)
+        if DUMP_SYMBOLS["on"]:
+            import contextlib
+            import io
+
+            with contextlib.redirect_stdout(io.StringIO()):
+                err = program.assemble_string_with_emitter(src, filename, w)
+        else:
+            err = program.assemble_string_with_emitter(src, filename, w)
     except RecursionError as e:
         return Result(False, "RecursionError", "recursion", exc=e, program=program)
     except Exception as e:  # noqa: BLE001 - every exception is a rejection at this boundary
